@@ -686,7 +686,11 @@ async fn run_ops_inner(p: Arc<Prog>, objs: Arc<Vec<Obj>>, b: usize, kind: Kind) 
                 log_op(3, &[]);
             }
             Op::Park => {
-                thread::park();
+                if me() % 2 == 1 {
+                    thread::park_timeout(std::time::Duration::from_millis(1));
+                } else {
+                    thread::park();
+                }
                 log_op(4, &[]);
             }
             Op::UnparkH(h) => {
@@ -728,6 +732,11 @@ async fn run_ops_inner(p: Arc<Prog>, objs: Arc<Vec<Obj>>, b: usize, kind: Kind) 
                         let v = at.compare_and_swap(c, n, o);
                         (v == c, v)
                     }
+                    // (no spurious failures are produced: the weak form is the strong one)
+                    AOp::Cas(c, n) if a % 3 == 1 => match at.compare_exchange_weak(c, n, o, lo) {
+                        Ok(v) => (true, v),
+                        Err(v) => (false, v),
+                    },
                     AOp::Cas(c, n) => match at.compare_exchange(c, n, o, lo) {
                         Ok(v) => (true, v),
                         Err(v) => (false, v),
@@ -757,7 +766,14 @@ async fn run_ops_inner(p: Arc<Prog>, objs: Arc<Vec<Obj>>, b: usize, kind: Kind) 
                     .rposition(|g| g.obj() == m && matches!(g, Guard::M(..)))
                     .expect("vharness: no guard");
                 let Guard::M(_, g) = guards.remove(idx) else { unreachable!() };
-                let (code, g) = lock_code(c.wait(g), |g| g);
+                // Shuttle does not model time: the timed variants are the untimed ones (odd task ids go through them)
+                let (code, g) = if me() % 2 == 1 {
+                    let (code, (g, t)) = lock_code(c.wait_timeout(g, std::time::Duration::from_millis(1)), |x| x);
+                    assert!(!t.timed_out(), "vharness: wait_timeout reported a timeout");
+                    (code, g)
+                } else {
+                    lock_code(c.wait(g), |g| g)
+                };
                 guards.push(Guard::M(m, g));
                 log_op(21, &[code]);
             }
@@ -800,7 +816,13 @@ async fn run_ops_inner(p: Arc<Prog>, objs: Arc<Vec<Obj>>, b: usize, kind: Kind) 
             Op::Recv(ch, blocking) => {
                 let Obj::Chan(c) = &objs_ref[ch] else { panic!("vharness: not a channel") };
                 let rx = unsafe { &*c.rx.get() }.as_ref().expect("vharness: endpoint dropped");
-                if blocking {
+                if blocking && me() % 2 == 1 {
+                    match rx.recv_timeout(std::time::Duration::from_millis(1)) {
+                        Ok(v) => log_op(24, &[0, v]),
+                        Err(shuttle::sync::mpsc::RecvTimeoutError::Disconnected) => log_op(24, &[2]),
+                        Err(shuttle::sync::mpsc::RecvTimeoutError::Timeout) => log_op(24, &[3]),
+                    }
+                } else if blocking {
                     match rx.recv() {
                         Ok(v) => log_op(24, &[0, v]),
                         Err(_) => log_op(24, &[2]),
